@@ -15,6 +15,11 @@
 (*               level): as "A" without the user-var probe and the name      *)
 (*   variant "B" aggregator inside the sub-workflow: as "A" without the      *)
 (*               user-var probe                                             *)
+(*   variant "E" the environment (level 0), built by the real              *)
+(*               newEnvironment from a configuration store holding the      *)
+(*               level-0 defaults / vars cells and a request holding the    *)
+(*               level-0 user vars: <<0, "E", GlobalDefaults[k],             *)
+(*               GlobalVars[k], UserVars[k], BaseConfigStack[k]>>            *)
 (* cs = ConsolidatedVarStack()[k]; h = k in the stack of template stage     *)
 (* 0..5 (hook point vs.stage); cm = ConsolidatedVarMaps(); s = a field of   *)
 (* the role rendered at stage 1..5 whose template is a reference to k.      *)
@@ -111,12 +116,23 @@ RoleViol(c, scn, e, ex) ==
           + ClassViol(c, scn, e, ex[1], 3) + ClassViol(c, scn, e, ex[1], 4)
        ELSE 0)
 
+\* --- the environment level itself (record <<0, "E", defaults, vars, user vars, base config stack>>):
+\* what the environment's own three maps answer for k - each kind on its own: the configuration
+\* store's defaults are not vars - and the base config stack (store vars over store defaults)
+EnvViol(c, scn, e) ==
+  LET exp == <<0, "E", Raw(c, "k", 0, 0), Raw(c, "k", 0, 1), Raw(c, "k", 0, 2),
+               Over(Raw(c, "k", 0, 1), Raw(c, "k", 0, 0))>>
+  IN IF e = exp THEN 0
+     ELSE IF Len(e) # Len(exp) THEN Soft("Shape", scn, FALSE, <<0, "E", Len(e), Len(exp)>>)
+     ELSE SumSeq([j \in 1..Len(e) |->
+                    IF j <= 2 THEN 0 ELSE Soft("EnvLevel", scn, e[j] = exp[j], <<0, "E", j, e[j], exp[j]>>)])
+
 \* --- strict conformance: what the property leaves open, as the code does it ---
 \* one record per level (the aggregator on the path; at an include: the include role, then the
 \* sub-workflow root) plus - unless the case was run without them (notc) - a task role and a call
 \* role variant at every level >= 2 except the sub-workflow root's
 ExpectedRoles(c, notc) ==
-  IF notc THEN c.d ELSE c.d + 2 * Cardinality({lv \in 2..c.d : c.inc = 0 \/ lv # c.inc + 1})
+  1 + IF notc THEN c.d ELSE c.d + 2 * Cardinality({lv \in 2..c.d : c.inc = 0 \/ lv # c.inc + 1})
 VariantAt(c, lv) ==
   CASE c.inc = 0 \/ lv < c.inc -> {"A", "T", "C"}
     [] lv = c.inc -> {"I", "T", "C"}
@@ -130,8 +146,11 @@ Conforms(c, ln, Ex) ==
   IF Fails(c) THEN ln.err = "unknown-name" /\ Len(ln.r) = 0
   ELSE /\ ln.err = ""
        /\ Len(ln.r) = ExpectedRoles(c, ln.notc)
-       /\ \A i \in 1..Len(ln.r) : /\ ln.r[i][1] \in 1..c.d /\ ln.r[i][2] \in VariantAt(c, ln.r[i][1])
-                                  /\ RoleConforms(c, ln.r[i], Ex[ln.r[i][1]])
+       /\ Cardinality({i \in 1..Len(ln.r) : ln.r[i][2] = "E"}) = 1
+       /\ \A i \in 1..Len(ln.r) :
+            \/ ln.r[i][2] = "E" /\ ln.r[i][1] = 0
+            \/ /\ ln.r[i][1] \in 1..c.d /\ ln.r[i][2] \in VariantAt(c, ln.r[i][1])
+               /\ RoleConforms(c, ln.r[i], Ex[ln.r[i][1]])
 
 TCase ==
   /\ l <= last /\ Line.ev = "Case"
@@ -142,7 +161,9 @@ TCase ==
        /\ (IF Conforms(c, Line, Ex) THEN TRUE ELSE PrintT(<<"DRIFT", Line.scn, l, Line.ev>>))
        /\ nviol' = nviol
             + Soft("FailsIffInvisible", Line.scn, (Line.err # "") <=> Fails(c), <<Line.err, Fails(c)>>)
-            + SumSeq([i \in 1..Len(Line.r) |-> RoleViol(c, Line.scn, Line.r[i], Ex[Line.r[i][1]])])
+            + SumSeq([i \in 1..Len(Line.r) |->
+                        IF Line.r[i][2] = "E" THEN EnvViol(c, Line.scn, Line.r[i])
+                        ELSE RoleViol(c, Line.scn, Line.r[i], Ex[Line.r[i][1]])])
   /\ l' = l + 1 /\ UNCHANGED <<first, last>>
 
 ChunkSize == (Len(Trace) + NChunks - 1) \div NChunks
